@@ -15,7 +15,8 @@ Record file := { actual : N; recorded : N; orig : N; disabled : bool }.
 
 Record store := {
   files : list file;            (* every data file of every snapshot directory *)
-  verified : option bool        (* verifyOnce: not run yet / passed / failed (sticky) *)
+  verified : option bool;       (* verifyOnce: not run yet / passed / failed (sticky) *)
+  plan : bool                   (* a REAP_PLAN file (or any other temporary entry) is in the store directory *)
 }.
 
 (* ChecksummedFile.Check *)
@@ -25,7 +26,7 @@ Definition fcheck (f : file) : bool := disabled f || (actual f =? recorded f).
 Definition ensure_verified (s : store) : store * bool :=
   match verified s with
   | Some b => (s, b)
-  | None => let b := forallb fcheck (files s) in ({| files := files s; verified := Some b |}, b)
+  | None => let b := forallb fcheck (files s) in ({| files := files s; verified := Some b; plan := plan s |}, b)
   end.
 
 (* NewHeaderFromChecksummedFile: the recorded checksum, or a live one for a Disabled sidecar *)
@@ -70,13 +71,13 @@ Definition step (s : store) (e : event) : store * outcome :=
   | ECorruptData i v =>
     match nth_error (files s) i with
     | Some f => ({| files := set_nth (files s) i {| actual := v; recorded := recorded f; orig := orig f; disabled := disabled f |};
-                    verified := verified s |}, Done)
+                    verified := verified s; plan := plan s |}, Done)
     | None => (s, Done)
     end
   | ECorruptSidecar i v =>
     match nth_error (files s) i with
     | Some f => ({| files := set_nth (files s) i {| actual := actual f; recorded := v; orig := orig f; disabled := disabled f |};
-                    verified := verified s |}, Done)
+                    verified := verified s; plan := plan s |}, Done)
     | None => (s, Done)
     end
   | EOpen ids =>
@@ -88,10 +89,13 @@ Definition step (s : store) (e : event) : store * outcome :=
     let '(s1, ok) := ensure_verified s in
     if negb ok then (s1, Refused) else
     let fs := pick (files s1) ids in
-    if negb (forallb fcheck fs) then (s1, Refused) else      (* the fix: verify what is about to be consumed *)
+    (* the fix: verify what is about to be consumed -- BEFORE the plan is written, so a refusal
+       leaves nothing behind *)
+    if negb (forallb fcheck fs) then (s1, Refused) else
+    (* write REAP_PLAN, execute it, remove it *)
     ({| files := {| actual := v; recorded := v; orig := v; disabled := false |} :: remove_ids (files s1) 0 (ids ++ gone);
-        verified := verified s1 |}, Used fs)
-  | ERestart => ({| files := files s; verified := None |}, Done)
+        verified := verified s1; plan := false |}, Used fs)
+  | ERestart => ({| files := files s; verified := None; plan := plan s |}, Done)
   end.
 
 Fixpoint run (s : store) (es : list event) : store * list outcome :=
@@ -102,11 +106,18 @@ Fixpoint run (s : store) (es : list event) : store * list outcome :=
 
 (* a store whose n files are as written *)
 Definition fresh (crcs : list N) : store :=
-  {| files := map (fun c => {| actual := c; recorded := c; orig := c; disabled := false |}) crcs; verified := None |}.
+  {| files := map (fun c => {| actual := c; recorded := c; orig := c; disabled := false |}) crcs; verified := None; plan := false |}.
 
 (* ---------------------------------------------------------------- correspondence interface *)
-(* observed per event: 0 = not a consumer, 1 = the consumer succeeded, 2 = it failed *)
+(* observed per event: 0 = not a consumer, 1 = the consumer succeeded, 2 = it failed; plus 10 when
+   the store directory holds a REAP_PLAN / REAP_PLAN.tmp file or a *.tmp directory afterwards *)
 Definition out_code (o : outcome) : N := match o with Done => 0 | Used _ => 1 | Refused => 2 end.
+
+Fixpoint run_codes (s : store) (es : list event) : list N :=
+  match es with
+  | [] => []
+  | e :: r => let '(s1, o) := step s e in (out_code o + (if plan s1 then 10 else 0)) :: run_codes s1 r
+  end.
 
 Record case := { c_crcs : list N; c_events : list event; c_obs : list N }.
 
@@ -118,4 +129,4 @@ Fixpoint codes_eqb (a b : list N) : bool :=
   end.
 
 Definition check_case (c : case) : bool :=
-  codes_eqb (map out_code (snd (run (fresh (c_crcs c)) (c_events c)))) (c_obs c).
+  codes_eqb (run_codes (fresh (c_crcs c)) (c_events c)) (c_obs c).
